@@ -76,7 +76,7 @@ Lemma selectors_mean_l n :
   sel_idx n (SSlice None None None) = Ok (seq 0 n).
 Proof.
   split; [|split].
-  - intros m H. cbn [sel_idx]. rewrite H, Nat.eqb_refl. eexists. split; [reflexivity|].
+  - intros m H. cbn [sel_idx]. rewrite H, Nat.eqb_refl. cbn [orb]. eexists. split; [reflexivity|].
     intro k. rewrite mask_pos_in. rewrite Nat.sub_0_r. split; [intros [_ X]; exact X|intro X; split; [lia|exact X]].
   - intros ix sigma H. cbn [sel_idx] in H. split; [apply (norm_idxs_length _ _ _ H)|apply (norm_idxs_val _ _ _ H)].
   - cbn [sel_idx]. unfold slice_idx. cbn [Z.eqb Z.ltb Z.compare]. f_equal.
